@@ -138,17 +138,20 @@ def _strike_shift(K, dtype):
     return math.log(k32 / K) if k32 != K else 0.0
 
 
-def _w_class(kind, s, m, t, v, dtype):
-    """'w0' iff the implementation's d1/d2 arguments degenerate: w = sigma*sqrt(t) evaluates to exactly 0
-    in the dtype (t = 0, sigma = 0, underflow) or is so small that x/w overflows to +-inf, x being the
-    log-distance the selected pricing branch divides (s, or s - m for a lookback whose running maximum
-    is at or above the strike).  Otherwise 'wtiny'."""
-    w = torch.tensor(v, dtype=dtype) * torch.tensor(t, dtype=dtype).sqrt()
+def _w_class(kind, s, m, t, v, K, dtype):
+    """'w0' iff the implementation's d1/d2 arguments or the ratios phi(d)/(S*w) degenerate in the dtype:
+    w = sigma*sqrt(t) evaluates to exactly 0 (t = 0, sigma = 0, underflow), or 1/w or x/w overflow to inf
+    (x = the log-distance the selected pricing branch divides: s, or s - m for a lookback whose running
+    maximum is at or above the strike), or w*min(S, K, 1) underflows to 0.  Otherwise 'wtiny'."""
+    T = lambda z: torch.tensor(z, dtype=dtype)
+    w = T(v) * T(t).sqrt()
     if w.item() == 0:
         return "w0"
     x = (s - m) if (kind == "lookback" and m >= 0) else s
-    d = torch.tensor(x, dtype=dtype) / w
-    return "w0" if bool(torch.isinf(d)) else "wtiny"
+    if bool(torch.isinf(T(x) / w)) or bool(torch.isinf(1 / w)):
+        return "w0"
+    scale = torch.minimum(torch.minimum(T(s).exp() * K, T(K)), T(1.0))
+    return "w0" if (w * scale).item() == 0 else "wtiny"
 
 
 def _state_class(kind, s, m):
@@ -171,9 +174,18 @@ def limits(ctx, block):
     E = _evaluators()
     names = block.get("evals") or list(E)
     raw = torch.tensor(cases, dtype=torch.float64).reshape(-1, 4).to(dtype)
+    # the oracle works on the values the implementation actually receives (after the cast); symbols that
+    # coincide after the cast (1e-300 is 0 in float32) are evaluated and counted once
+    vals, keep, seen = [], [], set()
+    for i, row in enumerate(raw.to(torch.float64).tolist()):
+        key = tuple(repr(x) for x in row)   # repr keeps -0.0 and 0.0 apart
+        if key not in seen:
+            seen.add(key)
+            keep.append(i)
+            vals.append(row)
+    raw = raw[keep]
+    cases = vals
     s_t, m_t, t_t, v_t = (raw[:, i].contiguous() for i in range(4))
-    # the oracle works on the values the implementation actually receives (after the cast)
-    vals = raw.to(torch.float64).tolist()
     N = len(vals)
     n_w0 = int(((v_t * t_t.sqrt()) == 0).sum())
     bounds_cache = {}
@@ -214,7 +226,7 @@ def limits(ctx, block):
                 continue
             s, m, t, v = vals[i]
             what = "nan" if g != g else ("inf" if math.isinf(g) else "value")
-            wc = _w_class(kind, s, m, t, v, dtype)
+            wc = _w_class(kind, s, m, t, v, K, dtype)
             cls = f"{what}_{wc}_{_state_class(kind, s, m)}"
             if what != "nan":
                 cls += "_" + zn
